@@ -1,5 +1,157 @@
-From Coq Require Import ZArith NArith List Bool.
+(* C40 — Key generation results and inactivity claims satisfy the on-chain rules.
+   ONLY property statements; proofs are in Proofs/C40.v.  The contract side (validate_fields,
+   contract_*_preimage, contract_group_members, verify_claim_static ...) is the hand
+   transcription of the Solidity sources in Model/C40.v, Part 3.
+
+   [valid_in p quorum i] (Model/C40.v, Part 5) says: the group has groupSize p <= 255 seats;
+   1 <= quorum and the contract's groupThreshold and activeThreshold are <= quorum; the
+   misbehaved indices are distinct and within [1, n]; the operating indices are distinct and are
+   exactly the other indices of [1, n]; the signatures map has distinct keys, every key is an
+   operating member and every signature has 65 bytes; at least [quorum] signatures; the key
+   coordinates and the chain id fit 256 bits and the start block fits int64. *)
+From Coq Require Import ZArith NArith List Permutation Sorted.
 From KV Require Import Model.C40 Proofs.C40.
-Theorem insert_length : forall x l, length (insert x l) = S (length l).
-Proof. exact Proofs.C40.insert_length. Qed.
-Print Assumptions insert_length.
+Import ListNotations.
+Open Scope N_scope.
+
+(* ---- ABI encoding: well-formedness *)
+
+(* go-ethereum's Arguments.Pack loop produces exactly abi.encode, for every argument list *)
+Theorem go_pack_is_abi_encode : forall args, go_pack args = abi_encode args.
+Proof. exact Proofs.C40.go_pack_eq. Qed.
+Print Assumptions go_pack_is_abi_encode.
+
+(* an encoding is a whole number of 32-byte words, one head word per argument *)
+Theorem abi_encode_length :
+  forall args, exists k, length (abi_encode args) = (32 * (length args + k))%nat.
+Proof. exact Proofs.C40.abi_encode_length. Qed.
+Print Assumptions abi_encode_length.
+
+(* the head word of a dynamic argument is the offset at which that argument's encoding starts *)
+Theorem abi_offset_points_to_tail :
+  forall pre a post, is_dyn a = true ->
+  exists h1 h2 off,
+    abi_encode (pre ++ a :: post) = h1 ++ word off ++ h2 ++ tails pre ++ enc_val a ++ tails post
+    /\ length h1 = (32 * length pre)%nat
+    /\ off = lenN (h1 ++ word off ++ h2 ++ tails pre).
+Proof. exact Proofs.C40.abi_offset_points_to_tail. Qed.
+Print Assumptions abi_offset_points_to_tail.
+
+(* a word decodes to the number it encodes *)
+Theorem word_roundtrip : forall n v, v < 256 ^ N.of_nat n -> be_value (be_bytes n v) = v.
+Proof. exact Proofs.C40.be_value_be_bytes. Qed.
+Print Assumptions word_roundtrip.
+
+(* the two key serialisations of the client (convertPubKeyToChainFormat for the result and the
+   wallet id, elliptic.Marshal minus the 04 byte for the hashes) are the same 64 bytes *)
+Theorem key_formats_agree :
+  forall x y, x < two256 -> y < two256 ->
+    option_map (@tl N) (marshal_uncompressed x y) = pubkey_chain_format x y
+    /\ pubkey_chain_format x y = Some (be_bytes 32 x ++ be_bytes 32 y)
+    /\ lenN (be_bytes 32 x ++ be_bytes 32 y) = 64.
+Proof.
+  intros x y Hx Hy. split; [apply Proofs.C40.marshal_tl; assumption|].
+  split; [apply Proofs.C40.pubkey_chain_format_ok; assumption | apply Proofs.C40.key64_length].
+Qed.
+Print Assumptions key_formats_agree.
+
+(* ---- the assembled result *)
+
+(* every valid input is assembled (and submitted, the quorum being met), and the result passes
+   the contract's validateFields *)
+Theorem assembled_result_passes_validate_fields :
+  forall p quorum i, valid_in p quorum i ->
+  exists a, assemble i = Ok a /\ submit quorum i = Ok a /\
+            validate_fields p (a_pubkey a) (a_misbehaved a) (a_sigs a) (a_signing a) = Valid.
+Proof.
+  intros p quorum i Hv. exists (Proofs.C40.model_result i).
+  destruct (Proofs.C40.assemble_spec p quorum i Hv) as [Ha Hs].
+  split; [exact Ha|]. split; [exact Hs|]. exact (Proofs.C40.result_fields_valid p quorum i Hv).
+Qed.
+Print Assumptions assembled_result_passes_validate_fields.
+
+(* misbehaved and signing indices are strictly increasing (sorted, unique) and within [1, n];
+   the signatures are the supporters' signatures concatenated in the order of signing indices *)
+Theorem assembled_indices_sorted_unique_in_range :
+  forall p quorum i, valid_in p quorum i ->
+  exists a, assemble i = Ok a /\
+    StronglySorted N.lt (a_misbehaved a) /\
+    Forall (fun m => 1 <= m <= lenN (i_members i)) (a_misbehaved a) /\
+    Permutation (a_misbehaved a) (i_misbehaved i) /\
+    StronglySorted N.lt (a_signing a) /\
+    Forall (fun m => 1 <= m <= lenN (i_members i)) (a_signing a) /\
+    Permutation (a_signing a) (map fst (i_sigs i)) /\
+    a_sigs a = concat (map (fun k => assoc k (i_sigs i)) (a_signing a)) /\
+    lenN (a_sigs a) = 65 * lenN (a_signing a).
+Proof. exact Proofs.C40.assembled_indices. Qed.
+Print Assumptions assembled_indices_sorted_unique_in_range.
+
+(* members hash: the bytes the contract hashes in validateMembersHash (its own loop over
+   members and misbehaved indices) are byte for byte the bytes the client hashed — so the two
+   hashes agree for ANY hash function: validateMembersHash returns true on the client's hash *)
+Theorem members_hash_preimage_equal :
+  forall p quorum i, valid_in p quorum i ->
+  exists a, assemble i = Ok a /\
+    contract_members_preimage (a_members a) (a_misbehaved a) = Some (a_mh_pre a) /\
+    forall keccak, validate_members_hash keccak (a_members a) (a_misbehaved a) (keccak (a_mh_pre a))
+                   = Some true.
+Proof. exact Proofs.C40.members_hash_preimage. Qed.
+Print Assumptions members_hash_preimage_equal.
+
+(* signature hash: whatever order a supporter lists the misbehaved members in, the bytes it
+   hashes (CalculateDKGResultSignatureHash) are the bytes validateSignatures hashes for the
+   assembled result *)
+Theorem signature_hash_preimage_equal :
+  forall p quorum i, valid_in p quorum i ->
+  exists a, assemble i = Ok a /\
+    forall misb', Permutation misb' (i_misbehaved i) ->
+      client_sig_preimage (i_chainid i) (i_x i) (i_y i) misb' (i_start i)
+      = Some (contract_sig_preimage (i_chainid i) (a_pubkey a) (a_misbehaved a) (i_start i)).
+Proof.
+  intros p quorum i Hv. exists (Proofs.C40.model_result i).
+  split; [exact (proj1 (Proofs.C40.assemble_spec p quorum i Hv))|].
+  exact (Proofs.C40.result_sig_preimage p quorum i Hv).
+Qed.
+Print Assumptions signature_hash_preimage_equal.
+
+(* the prefixed message the operator signer hashes equals OpenZeppelin's toEthSignedMessageHash
+   preimage for a 32-byte hash *)
+Theorem eth_signed_message_preimage_equal :
+  forall msg, lenN msg = 32 -> client_eth_preimage msg = eth_signed_preimage msg.
+Proof. exact Proofs.C40.eth_preimage_eq. Qed.
+Print Assumptions eth_signed_message_preimage_equal.
+
+(* wallet id: calculateWalletID hashes the 64 bytes Wallets.addWallet hashes (the result's
+   groupPubKey), and that key has the length validatePublicKey demands *)
+Theorem wallet_id_preimage_equal :
+  forall p quorum i, valid_in p quorum i ->
+  exists a, assemble i = Ok a /\
+    client_wallet_preimage (i_x i) (i_y i) = Some (contract_wallet_preimage (a_pubkey a)) /\
+    lenN (a_pubkey a) = 64.
+Proof.
+  intros p quorum i Hv. exists (Proofs.C40.model_result i).
+  split; [exact (proj1 (Proofs.C40.assemble_spec p quorum i Hv))|].
+  exact (Proofs.C40.result_wallet_preimage p quorum i Hv).
+Qed.
+Print Assumptions wallet_id_preimage_equal.
+
+(* ---- inactivity claims *)
+
+(* the claim hash: for every chain id, nonce, wallet key, inactive-member list, heartbeat flag and
+   signatures map that can be assembled, the client hashes exactly the bytes verifyClaim hashes,
+   built from the assembled claim and the key coordinates Wallets.addWallet stored *)
+Theorem inactivity_claim_preimage_equal :
+  forall chainid nonce x y inactive hbf wallet sigs k pk,
+    x < two256 -> y < two256 ->
+    assemble_claim wallet inactive sigs hbf = Ok k ->
+    pubkey_chain_format x y = Some pk ->
+    client_claim_preimage chainid nonce x y inactive hbf
+    = Some (contract_claim_preimage chainid nonce (wallet_x pk) (wallet_y pk) k)
+    /\ k_inactive k = inactive /\ k_hbf k = hbf /\ k_wallet k = wallet.
+Proof. exact Proofs.C40.claim_preimage_eq. Qed.
+Print Assumptions inactivity_claim_preimage_equal.
+
+(* ---- the executable forms used by the correspondence check *)
+Theorem valid_inb_sound : forall p quorum i, valid_inb p quorum i = true -> valid_in p quorum i.
+Proof. exact Proofs.C40.valid_inb_sound. Qed.
+Print Assumptions valid_inb_sound.
